@@ -81,6 +81,24 @@ Theorem C14_parse_partial_from : forall b, frag_flat b = true ->
   parse_from l_grammar L_EXP (render_block b) = PFuel \/ parse_ok b.
 Proof. exact parse_flat_from. Qed.
 
+(** One block, positions only (the span texts of the compound nodes are not yet connected to
+    tree_of_script): the script  `while cond` / one or more command lines / `done`  -- cond any
+    one-line text without `;` and without white space at either end -- is parsed completely, for all
+    sufficiently large fuel, to  EXP [ EXP_WHILE [ WHILE_HEAD [TEST]; EXP_BODY [CMD ...] ]; EOI ]
+    with exactly these spans. Unbounded in cond and in the body. *)
+Theorem C14_parse_while_pos : forall cond l r, cond_ok cond = true -> forallb cmd_ok (l :: r) = true ->
+  let src := while_script cond (l :: r) in
+  let p1 := S (6 + List.length cond) in
+  let p2 := (p1 + List.length (render_lines (l :: r)))%nat in
+  evals l_grammar (PRef L_EXP) AtNon 0 src
+     (POk (List.length src) nil
+        (Node L_EXP 0 (List.length src)
+           (Node L_EXP_WHILE 0 (p2 + 5)
+              (Node L_WHILE_HEAD 0 p1 (Node L_TEST 6 (6 + List.length cond) nil :: nil) ::
+               Node L_EXP_BODY p1 p2 (cmd_nodes p1 (l :: r)) :: nil) ::
+            Node L_EOI (List.length src) (List.length src) nil :: nil) :: nil)).
+Proof. exact while_script_parses_pos. Qed.
+
 Example C14_parse_partial_nonvacuous :
   frag_flat (BCons (SCmd nil (S2 "echo a  b")) (BCons (SBreak nil) (BCons (SCmd nil (S2 "ls | wc; date")) BNil))) = true.
 Proof. vm_compute. reflexivity. Qed.
@@ -168,6 +186,7 @@ Proof. vm_compute. repeat split. Qed.
 Print Assumptions C14_interp.
 Print Assumptions C14_parse_partial.
 Print Assumptions C14_parse_partial_from.
+Print Assumptions C14_parse_while_pos.
 Print Assumptions C14_parse_instances.
 Print Assumptions C14_anchor_sound.
 Print Assumptions C14_anchored.
